@@ -12,6 +12,8 @@ use serde::Serialize;
 use serde::de::DeserializeOwned;
 use serde_json::{Value, json};
 
+pub mod util;
+
 pub const VERIF_ROOT: &str = "/verif";
 
 #[derive(Clone, Copy, Debug, PartialEq, Eq)]
